@@ -108,4 +108,25 @@ def fullParams (n : Nat) (it : Iter) : Bool :=
   | none => true
   | some l => (List.range n).all fun i => l.any fun iv => iv.1 == i
 
+
+/-! ## a one-slot cache (`Source._prob_table`, keyed by the photon number and the photon filter)
+
+`Source.generate_samples` recomputes its table of emission events only when the photon number of the expected input or
+the photon filter differ from those the stored table was computed for; the other parameters of a `Source` never change
+after construction. -/
+
+/-- one question to a one-slot cache in front of `f`: the slot answers when it holds the key, else it is replaced -/
+def slotStep {K V : Type} [DecidableEq K] (f : K → V) (slot : Option (K × V)) (k : K) : Option (K × V) × V :=
+  match slot with
+  | some (k', v) => if k' = k then (slot, v) else (some (k, f k), f k)
+  | none => (some (k, f k), f k)
+
+/-- the same with a slot keyed by PART of the question only (the shape of a defect: a table computed for another
+filter answering) -/
+def slotStepBy {Q K V : Type} [DecidableEq K] (key : Q → K) (f : Q → V) (slot : Option (K × V)) (q : Q) :
+    Option (K × V) × V :=
+  match slot with
+  | some (k', v) => if k' = key q then (slot, v) else (some (key q, f q), f q)
+  | none => (some (key q, f q), f q)
+
 end PM.C09
